@@ -2,7 +2,7 @@
     Only ExtrOcamlBasic is used: N/Z/positive/nat stay the extracted inductive types.
     The path is relative to the directory coqc runs in (coq/). *)
 From Coq Require Import Extraction ExtrOcamlBasic.
-From XV Require Import C09.Spec09 C09.Model09 C09.Spec09b C09.Model09b C09.Spec09c C09.Model09c C09.Spec09d C09.Model09d C09.Spec09e C09.Model09e C09.Spec09f C09.Model09f C09.Spec09g C09.Model09g C09.Spec09h C09.Model09h C09.Spec09i C09.Model09i C09.Spec09j C09.Model09j.
+From XV Require Import C09.Spec09 C09.Model09 C09.Spec09b C09.Model09b C09.Spec09c C09.Model09c C09.Spec09d C09.Model09d C09.Spec09e C09.Model09e C09.Spec09f C09.Model09f C09.Spec09g C09.Model09g C09.Spec09h C09.Model09h C09.Spec09i C09.Model09i C09.Spec09j C09.Model09j C09.Spec09k C09.Model09k.
 Extraction Language OCaml.
 Extraction "../ocaml/C09/gen_c09.ml"
   ws_replace ws_collapse dec_lex dec_value dec_order dec_is_canonical Qcompare Qeq_bool
@@ -20,4 +20,5 @@ Extraction "../ocaml/C09/gen_c09.ml"
   dur_lex dur_read dur_order dur_parse dur_ok xsv_duration_validate dur_compare durv_compare dur_bounds
   list_enum_valid items_eq union_eq list_enum_check list_compare union_compare union_enum_check value_space_check
   date_canon_of date_is_canonical time_canon_of date_as_dt time_as_dt date_canon date_canon_with dt_canon_with fill_year fill_year_old
-  float_init_f xsv_float_validate_f float_cmp_special_f f29_shape dur_parse_f dur_ok_f dur_parse_x durv_compare_x dur_bounds_x.
+  float_init_f xsv_float_validate_f float_cmp_special_f f29_shape dur_parse_f dur_ok_f dur_parse_x durv_compare_x dur_bounds_x
+  float_canon dv_float_canon xsv_float_canon float_canon_of float_is_canonical.
